@@ -7,7 +7,10 @@
    factory); the boolean predicates are the constants the correspondence check
    (Check/C20_check.v) evaluates on the implementation's own observations.
    All statements quantify over every history of events (any number of names,
-   any number of restarts) and over both flavours. *)
+   any number of restarts) and over both flavours.
+   The model follows the code with the repairs of D23 (a changed spec stops the
+   running controller before the parent-CRD checks can return early) and D29 (a
+   resource listed twice is subscribed to once). *)
 From MC Require Import Model.Meta Proofs.C20Proofs.
 
 (* ---- 0. the comparison of specs is equality -------------------------------------- *)
@@ -38,33 +41,28 @@ Theorem C20_never_panics : forall fl h e,
 Proof. exact never_panics. Qed.
 Print Assumptions C20_never_panics.
 
-(* the full invariant (one instance per name, no leak, no double free).  Without
-   the hypothesis it is FALSE of the faithful model and of the code:
-   C20_one_instance_refuted. *)
-Theorem C20_one_instance_partial : forall fl h,
-  history_distinctb h = true -> C20_invb (run fl init h) = true.
-Proof. exact one_instance_partial. Qed.
-Print Assumptions C20_one_instance_partial.
+(* the full invariant, for every history: one instance per name, and refCount[r] is
+   exactly the number of subscriptions to r that running instances will close (no
+   leak, no double free) -- also when a specification names a resource twice *)
+Theorem C20_one_instance : forall fl h, C20_invb (run fl init h) = true.
+Proof. exact one_instance. Qed.
+Print Assumptions C20_one_instance.
 
 Definition leak_rule (k : string) : rule := mkRule k true false true.
 Definition leak_hooks : hooks_cfg :=
   mkHooks (HookWebhook (mkWh true None false TmoUnset EtagUnset)) HookAbsent HookAbsent.
-(* a child resource named twice: the second InformerMap.Set drops the first subscription *)
+(* a child resource named twice *)
 Definition leak_spec : spec :=
   mkSpec 1 [leak_rule "things.ctl.example.com/v1"] [leak_rule "pods.v1"; leak_rule "pods.v1"] (Some leak_hooks).
 Definition leak_history : list event :=
   [Reconcile "c" (LFound leak_spec CrdOk); Reconcile "c" LNotFound].
 
-Theorem C20_one_instance_refuted : ~ (forall fl h, C20_invb (run fl init h) = true).
-Proof. exact one_instance_cex. Qed.
-Print Assumptions C20_one_instance_refuted.
-
-(* the witness: after create and delete nothing runs and pods.v1 is still subscribed once *)
-Example C20_leak_witness :
-  insts (run Composite init leak_history) = [] /\
-  cnt "pods.v1" (refs (run Composite init leak_history)) = 1 /\
-  insts (run Decorator init leak_history) = [] /\
-  cnt "pods.v1" (refs (run Decorator init leak_history)) = 1.
+(* the former leak: one subscription while it runs, none after create and delete *)
+Example C20_dup_rule_no_leak :
+  cnt "pods.v1" (refs (run Composite init [Reconcile "c" (LFound leak_spec CrdOk)])) = 1 /\
+  insts (run Composite init leak_history) = [] /\ refs (run Composite init leak_history) = [] /\
+  cnt "pods.v1" (refs (run Decorator init [Reconcile "c" (LFound leak_spec CrdOk)])) = 1 /\
+  insts (run Decorator init leak_history) = [] /\ refs (run Decorator init leak_history) = [].
 Proof. vm_compute. repeat split. Qed.
 
 (* ---- 2. an update that leaves the spec unchanged does nothing --------------------- *)
@@ -106,12 +104,18 @@ Proof. exact restart_on_change. Qed.
 Print Assumptions C20_restart_on_change.
 
 (* a successful start subscribes to exactly the resources the instance will close
-   when it is stopped, provided no rule is repeated *)
+   when it is stopped *)
 Theorem C20_start_counts : forall fl s f g i r,
-  spec_distinctb s = true -> start fl s f = (g, Ok i) ->
+  start fl s f = (g, Ok i) ->
   cnt r g = cnt r f + cnt r (inst_subs i).
 Proof. exact start_counts. Qed.
 Print Assumptions C20_start_counts.
+
+(* a start that fails gives back everything it had subscribed to *)
+Theorem C20_failed_start_counts : forall fl s f g r,
+  start fl s f = (g, Err) -> cnt r g = cnt r f.
+Proof. exact failed_start_counts. Qed.
+Print Assumptions C20_failed_start_counts.
 
 (* ---- 4. delete stops the instance and gives every subscription back ----------------- *)
 Theorem C20_stop_releases : forall fl h n,
@@ -130,7 +134,7 @@ Print Assumptions C20_stop_releases.
    lifetime (create, related-resource requests of its syncs, delete) is the identity *)
 Theorem C20_lifetime_is_identity : forall fl h n s crd rs,
   let st := run fl init h in
-  runningb n st = false -> spec_distinctb s = true ->
+  runningb n st = false ->
   let st' := run fl st (lifetime n s crd rs) in
   insts st' = insts st /\ (forall k, cnt k (refs st') = cnt k (refs st)).
 Proof. exact lifetime_is_identity. Qed.
@@ -146,78 +150,80 @@ Theorem C20_bad_config_nothing_running : forall fl h n s crd,
   actions_of r = [] /\
   outcome_of r <> RPanic /\
   (crd_passesb fl crd = true -> outcome_of r = RErr) /\
-  (spec_distinctb s = true -> forall k, cnt k (refs (state_of r)) = cnt k (refs st)).
+  (forall k, cnt k (refs (state_of r)) = cnt k (refs st)).
 Proof. exact bad_config_nothing_running. Qed.
 Print Assumptions C20_bad_config_nothing_running.
 
-(* a parent CRD that is missing or has no status subresource: nothing is started *)
-Theorem C20_bad_crd_nothing_started : forall st n s crd,
+(* a parent CRD that is missing or has no status subresource (or an apiVersion that
+   does not parse): nothing is started; what runs afterwards, if anything, is the
+   unchanged instance of the very same spec *)
+Theorem C20_bad_crd_nothing_started : forall h n s crd,
   crd_passesb Composite crd = false ->
+  let st := run Composite init h in
   let r := step Composite st (Reconcile n (LFound s crd)) in
-  state_of r = st /\ actions_of r = [] /\ outcome_of r <> RPanic.
+  outcome_of r <> RPanic /\
+  (forall id, ~ In (Started n id) (actions_of r)) /\
+  (runningb n (state_of r) = true ->
+     state_of r = st /\ actions_of r = [] /\
+     exists i, ifind n (insts st) = Some i /\ spec_eqb s (i_spec i) = true).
 Proof. exact bad_crd_nothing_started. Qed.
 Print Assumptions C20_bad_crd_nothing_started.
 
-(* without the distinctness hypothesis the failed constructor leaks: *)
+(* the former leak of a failed constructor: children pods, pods, then an unknown resource *)
 Definition leak_fail_spec : spec :=
   mkSpec 2 [leak_rule "things.ctl.example.com/v1"]
          [leak_rule "pods.v1"; leak_rule "pods.v1"; mkRule "gizmos.v1" false false true] (Some leak_hooks).
-Theorem C20_bad_config_leak_refuted :
-  ~ (forall fl h n s crd, let st := run fl init h in
-       runningb n st = false -> startableb fl s (refs st) = false ->
-       forall k, cnt k (refs (state_of (step fl st (Reconcile n (LFound s crd))))) = cnt k (refs st)).
-Proof. exact bad_config_leak_cex. Qed.
-Print Assumptions C20_bad_config_leak_refuted.
+Example C20_failed_start_no_leak :
+  run Composite init [Reconcile "c" (LFound leak_fail_spec CrdOk)] = init /\
+  outcome_of (step Composite init (Reconcile "c" (LFound leak_fail_spec CrdOk))) = RErr /\
+  run Decorator init [Reconcile "c" (LFound leak_fail_spec CrdOk)] = init.
+Proof. vm_compute. repeat split. Qed.
 
-(* running before, new spec cannot start: the old instance is stopped, nothing runs for the name *)
+(* running before, and the new spec cannot be started -- it is unstartable, or (composite)
+   the parent CRD is missing / has no status subresource / its apiVersion does not parse:
+   the old instance is stopped completely and nothing runs for the name *)
 Theorem C20_bad_update_stops_old : forall fl h n s crd i f,
   let st := run fl init h in
-  ifind n (insts st) = Some i -> spec_eqb s (i_spec i) = false -> crd_passesb fl crd = true ->
-  stop i (refs st) = Some f -> startableb fl s f = false ->
+  ifind n (insts st) = Some i -> spec_eqb s (i_spec i) = false ->
+  stop i (refs st) = Some f ->
+  crd_passesb fl crd = false \/ startableb fl s f = false ->
   let r := step fl st (Reconcile n (LFound s crd)) in
-  outcome_of r = RErr /\
+  outcome_of r <> RPanic /\
+  (crd_passesb fl crd = true -> outcome_of r = RErr) /\
   runningb n (state_of r) = false /\
   insts (state_of r) = iremove n (insts st) /\
   actions_of r = [Stopped n (s_id (i_spec i))] /\
-  (spec_distinctb s = true -> forall k, cnt k (refs (state_of r)) = cnt k f).
+  (forall k, cnt k (refs (state_of r)) = cnt k f).
 Proof. exact bad_update_stops_old. Qed.
 Print Assumptions C20_bad_update_stops_old.
 
 (* ---- 6. what runs follows the spec --------------------------------------------------- *)
-(* Full strength: after every reconcile of n that found spec s, nothing runs for n or
-   what runs was started with s.  FALSE of the faithful model and of the code. *)
-Definition follows_spec_statement : Prop :=
-  forall fl h n s crd,
-    follows_specb n s (state_of (step fl (run fl init h) (Reconcile n (LFound s crd)))) = true.
+(* Full strength: after every reconcile of n that found spec s -- whatever the state of
+   the parent CRD -- nothing runs for n or what runs was started with s. *)
+Theorem C20_follows_spec : forall fl h n s crd,
+  follows_specb n s (state_of (step fl (run fl init h) (Reconcile n (LFound s crd)))) = true.
+Proof. exact follows_spec. Qed.
+Print Assumptions C20_follows_spec.
+
+(* the same from any state in which the step does not panic *)
+Theorem C20_follows_spec_any_state : forall fl st n s crd,
+  outcome_of (step fl st (Reconcile n (LFound s crd))) <> RPanic ->
+  follows_specb n s (state_of (step fl st (Reconcile n (LFound s crd)))) = true.
+Proof. exact follows_spec_any_state. Qed.
+Print Assumptions C20_follows_spec_any_state.
 
 Definition fs_spec (id : Z) : spec :=
   mkSpec id [leak_rule "things.ctl.example.com/v1"] [leak_rule "pods.v1"] (Some leak_hooks).
-(* create with a good CRD; then the spec changes while the CRD has lost its status subresource *)
+(* create with a good CRD; then the spec changes while the CRD has lost its status
+   subresource: the instance of the old spec is stopped, nothing is started *)
 Definition fs_history : list event := [Reconcile "c" (LFound (fs_spec 1) CrdOk)].
 Definition fs_event : event := Reconcile "c" (LFound (fs_spec 2) CrdNoStatus).
-
-Theorem C20_follows_spec_refuted : ~ follows_spec_statement.
-Proof. exact follows_spec_cex. Qed.
-Print Assumptions C20_follows_spec_refuted.
-
-Example C20_follows_spec_witness :
-  follows_specb "c" (fs_spec 2) (state_of (step Composite (run Composite init fs_history) fs_event)) = false /\
+Example C20_crd_gate_stops_old :
+  runningb "c" (run Composite init fs_history) = true /\
+  state_of (step Composite (run Composite init fs_history) fs_event) = init /\
   outcome_of (step Composite (run Composite init fs_history) fs_event) = ROk /\
-  actions_of (step Composite (run Composite init fs_history) fs_event) = [].
+  actions_of (step Composite (run Composite init fs_history) fs_event) = [Stopped "c" 1].
 Proof. vm_compute. repeat split. Qed.
-
-Theorem C20_follows_spec_partial : forall fl st n s crd,
-  crd_passesb fl crd = true ->
-  outcome_of (step fl st (Reconcile n (LFound s crd))) <> RPanic ->
-  follows_specb n s (state_of (step fl st (Reconcile n (LFound s crd)))) = true.
-Proof. exact follows_spec_partial. Qed.
-Print Assumptions C20_follows_spec_partial.
-
-(* the DecoratorController loop has no such corner: full strength *)
-Theorem C20_follows_spec_decorator : forall h n s crd,
-  follows_specb n s (state_of (step Decorator (run Decorator init h) (Reconcile n (LFound s crd)))) = true.
-Proof. exact follows_spec_decorator. Qed.
-Print Assumptions C20_follows_spec_decorator.
 
 (* ---- the hypotheses are satisfiable on non-trivial instances ------------------------- *)
 Definition ex_wh_service : webhook_cfg :=
@@ -226,7 +232,7 @@ Definition ex_hooks : hooks_cfg :=
   mkHooks (HookWebhook ex_wh_service) (HookWebhook (mkWh true None false TmoPositive EtagOff)) (HookWebhook (mkWh true None false TmoUnset (EtagOn false false))).
 Definition ex_spec (id : Z) : spec :=
   mkSpec id [mkRule "things.ctl.example.com/v1" true false true]
-         [mkRule "pods.v1" true true true; mkRule "widgets.apps.example.com/v1" true false true] (Some ex_hooks).
+         [mkRule "pods.v1" true true true; mkRule "widgets.apps.example.com/v1" true false true; mkRule "pods.v1" true false true] (Some ex_hooks).
 Definition ex_bad_spec : spec :=
   mkSpec 9 [mkRule "things.ctl.example.com/v1" true false true]
          [mkRule "pods.v1" true false true; mkRule "gizmos.v1" false false true] (Some ex_hooks).
@@ -236,16 +242,15 @@ Definition ex_history : list event :=
    Reconcile "b" (LFound (ex_spec 2) CrdOk);
    Reconcile "a" (LFound (ex_spec 3) CrdOk);
    Reconcile "b" (LFound ex_bad_spec CrdOk);
-   Reconcile "a" (LFound (ex_spec 3) CrdOk)].
+   Reconcile "a" (LFound (ex_spec 3) CrdMissing)].
 
 Example C20_example_state :
-  history_distinctb ex_history = true /\
   map fst (insts (run Composite init ex_history)) = ["a"] /\
   follows_specb "a" (ex_spec 3) (run Composite init ex_history) = true /\
   cnt "pods.v1" (refs (run Composite init ex_history)) = 1 /\
   C20_invb (run Composite init ex_history) = true /\
   C20_invb (run Decorator init ex_history) = true /\
-  startableb Composite ex_bad_spec [] = false /\ spec_distinctb ex_bad_spec = true /\
+  startableb Composite ex_bad_spec [] = false /\
   startableb Decorator (ex_spec 4) ["pods.v1"] = true.
 Proof. vm_compute. repeat split. Qed.
 
@@ -254,5 +259,5 @@ Example C20_example_restart :
   let st := run Composite init ex_history in
   exists i f, ifind "a" (insts st) = Some i /\ spec_eqb (ex_spec 5) (i_spec i) = false /\
               stop i (refs st) = Some f /\ startableb Composite (ex_spec 5) f = true /\
-              startableb Composite ex_bad_spec f = false.
+              startableb Composite ex_bad_spec f = false /\ crd_passesb Composite CrdNoStatus = false.
 Proof. vm_compute. eexists. eexists. repeat split. Qed.
